@@ -134,3 +134,17 @@ func inSet(s Set, q uint32) bool {
 //@ func parseNumRange(v string) (r Range, err error)
 //@   props C15
 //@   ensures err == nil ==> validRange(r)
+
+// ---------------------------------------------------------------------------
+// Insertion.
+
+// insertAt puts v at index i and shifts the tail, whether or not the backing
+// array has room.
+//
+//@ func (ptr *Set) insertAt(i int, v Range)
+//@   props C15
+//@   requires ptr != nil && 0 <= i && i <= len(*ptr)
+//@   ensures len(*ptr) == old(len(*ptr))+1
+//@   ensures (*ptr)[i] == v
+//@   ensures forall k int :: 0 <= k && k < i ==> (*ptr)[k] == old((*ptr)[k])
+//@   ensures forall k int :: i < k && k < len(*ptr) ==> (*ptr)[k] == old((*ptr)[k-1])
